@@ -30,7 +30,7 @@ ASSUMPTIONS = [
     "characters (ordinary calls: < 1 ms), or killed by the 20 s CPU supervisor / 2 GiB address-space limit",
     "the recursion counter may legitimately reach recursion_limit + 1 (it is compared with > before the increment)",
 ]
-REQUIRED = {"expr_calls": 3000, "sweep_calls": 2000, "program_expansions": 500, "functions_reached": 100, "recursion_watermarks": 100,
+REQUIRED = {"brace_sequences": 50000, "expr_calls": 3000, "sweep_calls": 2000, "program_expansions": 500, "functions_reached": 100, "recursion_watermarks": 100,
             "cyclic_universes": 20}
 LEVEL_TEXT = ("Exploration with a bounded-exhaustive part: the function sweep enumerates every registered name x "
               "argument count 0..3 x shape pairs on the real Expander; a boundary monitor, a proportionality monitor "
@@ -83,6 +83,8 @@ def plan(tier, seed):
     shards = [{"kind": "sweep", "shard": i, "n": n, "seed": seed, "aliases": 12 if tier == "quick" else 100000,
                "triples": 20 if tier == "quick" else 400}
               for i in range(n)]
+    shards += [{"kind": "braces", "shard": i, "n": 16, "seed": seed, "depth": 5 if tier == "quick" else 6,
+                "random": 2000 if tier == "quick" else 100000} for i in range(16)]
     shards += [{"kind": "expr", "shard": i, "n": 4, "seed": seed, "random": 300 if tier == "quick" else 20000} for i in range(4)]
     shards += [{"kind": "programs", "shard": i, "count": 500 if tier == "quick" else 40000, "seed": seed}
                for i in range(n)]
@@ -260,6 +262,31 @@ def run_shard(desc, R):
         R.count("functions_reached", len(reached_before))
         for f in reached_before:
             R.seen("functions", f)
+        return
+    if desc["kind"] == "braces":
+        # unbalanced braces: every token sequence up to the depth, as page text and as the body of a called template
+        toks = ["{{", "{{{", "}}", "}}}", "}", "{", "|", "=", "a", "t", " "]
+        pages0 = {"t": "[{{{1|d}}}]", "a": "A"}
+
+        def seqs():
+            for ln in range(1, desc["depth"] + 1):
+                for tup in itertools.product(toks, repeat=ln):
+                    yield "".join(tup)
+            r2 = random.Random("C03:braces:%s" % desc["seed"])
+            for _ in range(desc["random"] * desc["n"]):
+                yield "".join(r2.choice(toks) for _ in range(r2.randint(6, 14)))
+
+        db0 = SynthDB(pages0, "en")
+        for i, text in enumerate(seqs()):
+            if i % desc["n"] != desc["shard"]:
+                continue
+            ok, res = judge(R, text, db0, pages0, "en", "program", use_clock=False)
+            R.count("brace_sequences")
+            R.case(h64("braces", text), "{{" in text and "}}" in text)
+            if i % 7 == 0:
+                pages = dict(pages0, u=text)
+                judge(R, "{{u|x}}{{u}}", SynthDB(pages, "en"), pages, "en", "program", use_clock=False)
+                R.count("brace_sequences_as_template_body")
         return
     if desc["kind"] == "expr":
         db = SynthDB({}, "en")
